@@ -12,7 +12,9 @@
 //     <origin>:<ok>:<scheme>:<host>:<referer>:<ok>:<scheme>:<host>:<Host header>:<https 0/1>:<del 0/1>:<faults g/s/d or ->
 //   (ok/scheme/host = net/url.Parse of the lower-cased header: recomputed by the harness on replay)
 // Observation per `r` op: pass,status,ck(none|exp|hex),sc(none|hex),gen(+-joined hex|-),sgen,
-//   fired(faults that actually hit a storage call: subset of gsd, or -),live(+-joined k@deadline|?|-)
+//   fired(faults that actually hit a storage call: subset of gsd, or -),
+//   early(1 = a fault hit before the protected handler was entered, or it never was),
+//   live(+-joined k@deadline|?|-)
 package main
 
 import (
@@ -210,6 +212,7 @@ type world struct {
 	ntok     int
 	nsid     int
 	ran      bool
+	early    bool // a storage fault had fired when the protected handler was entered
 	sessions bool
 	// one RequestCtx per connection kind, reused across requests like a keep-alive connection
 	plain, secure *fasthttp.RequestCtx
@@ -292,6 +295,7 @@ func newWorld(c cfgIn) (w *world, panicked bool) {
 	}
 	protected := func(c fiber.Ctx) error {
 		w.ran = true
+		w.early = w.st != nil && (w.st.fired[0] || w.st.fired[1] || w.st.fired[2])
 		if fiber.Query[string](c, "del") == "1" {
 			if h := csrf.HandlerFromContext(c); h != nil {
 				if err := h.DeleteToken(c); err != nil {
@@ -443,7 +447,7 @@ func (w *world) do(o op) (obs string) {
 		w.st.failDel = strings.Contains(o.faults, "d")
 		w.st.fired = [3]bool{}
 	}
-	w.ran, w.gens, w.sgens = false, nil, nil
+	w.ran, w.early, w.gens, w.sgens = false, false, nil, nil
 	w.h(fctx)
 	if w.st != nil {
 		w.st.failGet, w.st.failSet, w.st.failDel = false, false, false
@@ -473,11 +477,15 @@ func (w *world) do(o op) (obs string) {
 			}
 		}
 	}
+	early := w.early
+	if !w.ran {
+		early = fired != ""
+	}
 	if fired == "" {
 		fired = "-"
 	}
 	return strings.Join([]string{gen.B(w.ran), strconv.Itoa(fctx.Response.StatusCode()), ck, sc,
-		plusList(w.gens), plusList(w.sgens), fired, w.liveObs()}, ",")
+		plusList(w.gens), plusList(w.sgens), fired, gen.B(early), w.liveObs()}, ",")
 }
 
 // runCase executes a history on a fresh world and returns the obs field.
